@@ -11,8 +11,8 @@
    Model/C11Dwarf.v + Model/C11Elf.v transliterate the code (pinned by the correspondence
    of tools/harness/c11.py, which also runs Spec and Model side by side on every case). *)
 From PV Require Import Base.Bytes Base.Outcome Base.Fmt Spec.PrimSpec Spec.ElfGabi Spec.C11Container
-  Model.C11Elf Model.C11Dwarf
-  Proofs.C11Crc Proofs.C11View Proofs.C11Zgnu Proofs.C11Links Proofs.C11Reject Proofs.C11Refine Proofs.C11Stored
+  Model.C11Elf Model.C11Dwarf Gen.C11Names
+  Proofs.C11Crc Proofs.C11View Proofs.C11Zgnu Proofs.C11Links Proofs.C11Reject Proofs.C11Refine Proofs.C11Gen Proofs.C11Stored
   Proofs.C11Examples.
 From Coq Require Import Lia.
 Open Scope list_scope.
@@ -172,6 +172,29 @@ Theorem C11_view_debugsup :
     Some (mkView (config_of e) (set_nth SLOT_SUP (Some d) sl) None).
 Proof. exact debugsup_view. Qed.
 Print Assumptions C11_view_debugsup.
+
+(* ======================================================================= the code's data *)
+(* regenerated from the live code on every run (Gen/C11Names.v): the section names
+   get_dwarf_info asks for and the DWARFInfo parameter each feeds, the names of
+   has_dwarf_info and of the link section, the constants of the legacy framing, the shapes
+   of Gnu_debuglink / Dwarf_debugsup / Dwarf_debugaltlink and the tabulated Padding lambda
+   equal what Spec and Model use *)
+Theorem C11_gen_tables_match_spec :
+  map snd gen_slots = spec_slot_names /\
+  map fst gen_slots = spec_slot_attrs /\
+  map ascii_bytes (map snd gen_slots) = section_names /\
+  map ascii_bytes gen_presence_names = [n_debug_info; n_zdebug_info; n_eh_frame] /\
+  forallb (fun n => bytes_eqb (ascii_bytes n) n_debuglink) gen_link_names = true /\
+  gen_zdebug_magic = ZLIB_MAGIC /\ gen_zdebug_size_fmt = ">Q"%string /\
+  gen_zdebug_min_size = 12 /\ gen_zdebug_chunk = 4096 /\
+  gen_debuglink_shape_le = spec_debuglink_shape true /\ gen_debuglink_shape_be = spec_debuglink_shape false /\
+  gen_debugsup_shape_le = spec_debugsup_shape true /\ gen_debugsup_shape_be = spec_debugsup_shape false /\
+  gen_altlink_shape_le = spec_altlink_shape /\ gen_altlink_shape_be = spec_altlink_shape /\
+  gen_debuglink_padding_le = map (fun k => 3 - k mod 4) upto12 /\
+  gen_debuglink_padding_be = map (fun k => 3 - k mod 4) upto12 /\
+  map (fun k => Z.of_nat (debuglink_padlen (repeat 1 (Z.to_nat k)))) upto12 = gen_debuglink_padding_le.
+Proof. exact gen_tables_match. Qed.
+Print Assumptions C11_gen_tables_match_spec.
 
 (* ======================================================================= presence *)
 (* has_dwarf_info(strict) of the model = the formula of the property, for every file whose
